@@ -61,9 +61,9 @@ def instances(tier):
         {"name": "wrapping", "depth": (5, 7), "keys": ["a", "b", "c"], "kinds": ["d", "u", "p"],
          "kbd": "(defsrc a b c)\n(deflayer l0 (macro x y) (one-shot 2 lsft) (multi lctl lalt))\n", "caps": {}},
     ]
-    # chords v2 (spec/ChordsV2.tla, real capacities 16 / 10 / 32): a flood of one key without releases reaches the
-    # 16-entry scratch list; with releases (thorough) the drain queue
-    I.append({"name": "chv2_flood", "depth": (18, 19), "keys": ["a"], "kinds": ["d"] if tier == "quick" else ["d", "u"],
+    # chords v2 (spec/ChordsV2.tla, real capacities 16 / 10 / 32): a flood of presses of one key reaches the 16-entry
+    # scratch list (with releases in the environment the instance has > 5 M states at this depth: not used)
+    I.append({"name": "chv2_flood", "depth": (18, 22), "keys": ["a"], "kinds": ["d"],
               "kbd": "(defcfg concurrent-tap-hold yes)\n(defsrc a b)\n(deflayer l0 a b)\n(defchordsv2 (a b) x 3 all-released ())\n",
               "caps": {"queue": 32}})
     if tier == "quick":
